@@ -77,8 +77,8 @@ Proof. exact pexec_obs_is_pexec. Qed.
 Print Assumptions C19_case_driver_runs_the_executor.
 
 (* non-vacuity: a pipeline with table sharing, plain and windowed extend, project, select_rows, join, concat with an empty
-   branch, order with limit evaluates (so the hypotheses of the theorems are satisfiable), writes in place 19 times, and
-   repeats *)
+   branch, order with limit evaluates (so the hypotheses of the theorems are satisfiable), writes in place at least 10 times, leaves
+   caller frame 1 unchanged, and repeats with the same content in a different object *)
 Example C19_hypotheses_satisfiable :
   (forall n l, In (n, l) (init_env ex_tables) -> In l (dom (init_store ex_tables))) /\ no_random ex_pipeline = true /\
   match pexec_st (init_store ex_tables) ex_pipeline (init_env ex_tables) with
